@@ -296,6 +296,8 @@ func runCheck(o checkOpts) int {
 	if workers < 2 {
 		workers = 2
 	}
+	hintsPath := filepath.Join(o.verif, "cache", "solver_hints_"+o.prop+".json")
+	loadSolverHints(hintsPath)
 	for _, r := range runs {
 		r.modelInputs() // computed up front: the solver workers must not touch the engine's registries
 	}
@@ -396,6 +398,26 @@ func runCheck(o checkOpts) int {
 				fmt.Println("  warn:", w)
 			}
 		}
+	}
+	if os.Getenv("VERIF_WRITE_HINTS") != "" {
+		hints := map[string]string{}
+		for _, ob := range all {
+			if !ob.isCover && ob.Result == "unsat" {
+				slow := ob.Solver != "z3-new"
+				for _, p := range ob.parts {
+					if p.Solver != "z3-new" && p.Result == "unsat" {
+						slow = true
+						hints[ob.Name] = p.Solver
+					}
+				}
+				if slow && ob.parts == nil {
+					hints[ob.Name] = ob.Solver
+				}
+			}
+		}
+		os.MkdirAll(filepath.Dir(hintsPath), 0o755)
+		data, _ := json.MarshalIndent(hints, "", " ")
+		os.WriteFile(hintsPath, data, 0o644)
 	}
 	if violations > 0 {
 		return 1
